@@ -376,7 +376,7 @@ func TestVerifC02(t *testing.T) {
 	if r.Thorough() {
 		ns = []int{1, 2, 3, 4}
 	}
-	sp := scriptSpace{failDo: 1, failUndo: 0, specials: []script{sNoUndo, sRetryOnce, sRetryAfter, sWaitDone, sAt}, maxSpecial: r.Pick(2, 2)}
+	sp := scriptSpace{failDo: 1, failUndo: 0, specials: []script{sNoUndo, sRetryOnce, sRetryAfter, sWaitDone, sWaitDo, sAt}, maxSpecial: r.Pick(2, 2)}
 	cfgs := enumConfigs(ns, sp, false, []int{0, 2})
 	// lanes matter to what gets undone, not to start conditions: one extra family with lanes for n<=3 and a failure
 	cfgs = append(cfgs, enumConfigs([]int{3}, scriptSpace{failDo: 1, requireFail: true, specials: []script{sNoUndo, sWaitDone}, maxSpecial: 1}, true, []int{0})...)
